@@ -74,7 +74,8 @@ check('C16', 'exploration',
       'called on every grid entry; C16_Data.tla (TLC) judges the reported '
       'numbers (threshold within 5 reported standard errors or 1% of the '
       'planted one, inside its confidence interval and the data range, '
-      'flagged successful, equal under every layout).  The optimiser '
+      'flagged successful, equal under every layout; X and Z sector '
+      'thresholds planted separately).  The optimiser '
       '(curve_fit + bootstrap) is observed, not modelled: this is a grid '
       'exploration, not a proof about the optimiser.',
       'DESIGN.md 4/C16, 5',
@@ -90,7 +91,8 @@ check('C17', 'model_checking',
       'DistanceSearch.tla makes the minimum-weight search a state machine: '
       'TLC breadth-first explores every operator of weight < d reachable '
       'under a complete pruning rule on the exported stabilizers/logicals of '
-      'every (class, size) with d <= 5 (quick) / 6 (thorough); tiny codes are '
+      'every (class, size) with d <= 5 (quick) / 6 (thorough) and of long '
+      'thin lattices with d <= 10 (one letter per run for CSS codes); tiny codes are '
       'also brute-forced over all 4^n operators (C17_Brute.tla); the pruning '
       'lemma is self-tested on every run by overstating d.  The other '
       'direction (d is the weight of a genuine non-trivial logical operator) '
@@ -139,9 +141,12 @@ check('C12', 'model_checking',
       'step (load, three list appends + increment per trial, save '
       'enter/begin/open/write/close/rename, KeyboardInterrupt with the '
       'retry-once handler, process kill, restart with grown spec / larger '
-      'target).  TLC explores the atomic-save design exhaustively (189 762 '
+      'target, an interrupt between the last trial and the try block of '
+      'save_results, the final save of a run with nothing left to do).  TLC '
+      'explores the atomic-save design exhaustively (308 204 '
       'states, plain and gzip) for Completes, ExactCounts, NoDup, NoForeign, '
-      'LoadAdoptsLastGood, PrefixKept and refutes the non-atomic variants.  '
+      'LoadAdoptsLastGood, PrefixKept and refutes the non-atomic, no-repair '
+      'and no-tail-save variants; liveness under fairness.  '
       'Behaviours generated by TLC (<= 3 process runs, one planned fault per '
       'run at a named control point) are replayed on the real '
       'BatchSimulation in forked children with the fault injected at that '
@@ -150,7 +155,10 @@ check('C12', 'model_checking',
       'predicates (completion, exact counts, saved trials kept as a prefix, '
       'no duplicate, no foreign record, a completed save never destroyed) '
       'on every observed execution; state-by-state equality with Batch.tla '
-      'is reported as a conformance count.',
+      'is reported as a conformance count.  In addition real trials of '
+      'eight decoder families are interrupted at every k-th line of library '
+      'code, resumed on the same object and by fresh objects, and judged by '
+      'the same module (kind point).',
       'DESIGN.md 4/C12',
       'Trusted: TLC; stub run_once issuing unique trial ids; kills realised '
       'by os._exit at byte-stream points (no power-loss reordering).',
